@@ -20,7 +20,7 @@ PROPS['C14'] = dict(
 
 PROPS['C12'] = dict(
   level='proof',
-  verus=[dict(unit='peephole', min_functions=18)],
+  verus=[dict(unit='peephole', min_functions=18), dict(unit='pipeline', min_functions=1)],
   not_decided=['A-invoke: the instruction-set meaning of Invoke/SuperInvoke is an axiom here (VM side: C03/C13)',
                'A-delim: Call(n>0) is preceded by ArgumentDelimiter (emitted by Compiler::call, outside reach)',
                'A-raw: locals/boxes/captures/module symbols modelled as a store separate from the operand stack'],
@@ -32,21 +32,21 @@ _FINDINGS_VARIANT = _findings_variant(['apply_stack_effects', 'spec:handler_dept
 
 PROPS['C06'] = dict(
   level='proof',
-  verus=[dict(unit='peephole', min_functions=4), dict(unit='bytecode', min_functions=10), dict(unit='ops', min_functions=30), _FINDINGS_VARIANT],
+  verus=[dict(unit='peephole', min_functions=4), dict(unit='bytecode', min_functions=10), dict(unit='ops', min_functions=30), dict(unit='pipeline', min_functions=1), _FINDINGS_VARIANT],
   not_decided=['O-06.9 constants/locals/captures/cache indices in range: carried by Compiler methods outside reach',
-               'A-shape: labels unique and dense, jump direction (compiler output shape)',
+               'A-shape: labels unique and dense, jump direction (compiler output shape) — assumed BY NAME at the composition point of peephole_compile (pipeline unit), not scattered over callers',
                'A-fiber: push_frame/ensure_stack reserve max_slots above the arguments (raw-pointer code, unverified)',
                'eff table vs the real op_* handlers: see the ops unit (C01/C16) for the handlers it covers'],
 )
 PROPS['C15'] = dict(
   level='proof',
-  verus=[dict(unit='peephole', min_functions=18), dict(unit='bytecode', min_functions=5), _findings_variant(['apply_stack_effects'])],
+  verus=[dict(unit='peephole', min_functions=18), dict(unit='bytecode', min_functions=5), dict(unit='lines', min_functions=1), dict(unit='pipeline', min_functions=1), _findings_variant(['apply_stack_effects'])],
   not_decided=['scanner, parser, resolver and Compiler totality; REPL continuation; only the compiler back half (peephole pass, label resolution, encoder) is under contract'],
 )
 PROPS['C18'] = dict(
   level='proof',
-  verus=[dict(unit='bytecode', min_functions=10), dict(unit='peephole', min_functions=8), dict(unit='lines', min_functions=6)],
-  not_decided=['traceback/backtrace assembly from frames, exit-status mapping in Vm::run, exit(n); Compiler::emit_byte line + 1'],
+  verus=[dict(unit='bytecode', min_functions=10), dict(unit='peephole', min_functions=8), dict(unit='lines', min_functions=6), dict(unit='pipeline', min_functions=1)],
+  not_decided=['traceback/backtrace assembly from frames, exit-status mapping in Vm::run, exit(n)'],
 )
 PROPS['C04'] = dict(
   level='proof',
